@@ -146,7 +146,7 @@ def library(quick):
     # ---- sequential
     for w in W:
         for en, rs in itertools.product([False, True], [False, True]):
-            for rv in ([None, 1] if quick else [None, 0, 1, (1 << w) - 1, 1 << w, -1]):
+            for rv in ([None, 1, -1] if quick else [None, 0, 1, (1 << w) - 1, 1 << w, -1, -5]):
                 ins = [('d', w)] + ([('en', 1)] if en else []) + ([('rs', 1)] if rs else [])
                 def body(p, t, I, O, en=en, rs=rs, rv=rv):
                     p.Reg(t, 'dut', I[0], O[0], enable=I[1] if en else None, reset=I[-1] if rs else None, reset_value=rv)
@@ -418,6 +418,11 @@ def adversarial(quick):
                 p.ModuloCounter(t, 'c0', 3, I[0], I[1], O[0], O[1]); p.ModuloCounter(t, 'c1', 2, I[0], I[1], O[2], O[3])
             return make_top(p, [('rst', 1), ('inc', 1)], [('q0', w), ('co0', 1), ('q1', w), ('co1', 1)], body)
         A(Case('reuse[ModuloCounter mod 3 / mod 2](w=%d)' % w, 'reuse', {'cls': 'ModuloCounter', 'w': w}, b_modc))
+    # negative reset value (module name `Reg8R_v-1`)
+    for rs in [False, True]:
+        def b_neg(p, rs=rs):
+            return make_top(p, [('d', 6), ('rs', 1)], [('q', 6)], lambda t, I, O: p.Reg(t, 'dut', I[0], O[0], reset=I[1] if rs else None, reset_value=-1))
+        A(Case('Reg[reset_value=-1,reset=%s]' % rs, 'adversarial', {'kind': 'negative_reset_value', 'reset': rs}, b_neg))
     # two clock domains
     for first in ['base', 'derived']:
         def b_clk2(p, first=first):
